@@ -41,7 +41,7 @@ PROP = {
     "trusted": ["/verif/shim/collections.rs", "/verif/env, /verif/harness/env_*.rs (environment stand-ins)"],
     "explanation": "C03: Reader::handle_heartbeat_msg on the real Reader object.",
     "technique": "Kani/CBMC bounded symbolic model checking of the real Reader object (handle_heartbeat_msg and friends) with environment stubs",
-    "level_text": "SAT-solver verdict over all HEARTBEAT/DATA/GAP arguments inside the stated window.",
-    "level_note": "Trusted: Kani/CBMC/CaDiCaL, container shim, environment stubs listed in evidence.",
+    "level_text": "SAT-solver verdict: (kernels) over ALL valid writer-proxy states and HEARTBEAT ranges for missing_seqnums and the proxy step, over all members for the 256-window of from_base_and_set on a grid of bases/spans; (object) over all HEARTBEAT(first,last,final) for a real Reader with a freshly matched writer.",
+    "level_note": "The real Reader::handle_heartbeat_msg is decided only from the fresh state (one symbolic HEARTBEAT); for other states the truthfulness of ACKNACKs rests on the kernel harnesses of the functions it composes (proxy step, missing_seqnums, from_base_and_set, missing_frags_for), not on the glue itself: a defect confined to the glue that needs a non-fresh state (e.g. base computation with a partially received fragment) is NOT caught by the quick tier (confirmed by a seeded defect, /verif/seeded/README.md). Trusted: Kani/CBMC/CaDiCaL, container shim, environment stubs listed in evidence.",
 }
 
